@@ -228,6 +228,10 @@ class Dmn(Family):
                 if not late and rng.chance(3, 4):
                     n = rng.choice([x for x in (1, 2, 8, 16, 64, 256, 1024, 32768) if x <= maxq] + [3, 100])
                     n = min(n, maxq)
+                if rng.chance(1, 2):
+                    # a reply-bearing request first: its answer shows that the daemon is serving, so that a refusal of
+                    # the size that follows is the handler's own
+                    steps.append(st("get_queue_num"))
                 steps.append(st("set_vring_num", [q, n & 0xffff]))
             elif k == 8:
                 steps.append(st("set_vring_base", [q, rng.choice([0, 1, 7, 255, 256, 65535, rng.below(65536)])]))
@@ -460,6 +464,25 @@ class Dmn(Family):
         steps += order + [st("proxy_probe", [rng.below(2)]), st("panics")]
         return [VL(cfg), VL(steps + [st("teardown")])]
 
+    def resize_history(self, rng):
+        # a ring is resized several times, down and up again within the backend's maximum, with the odd refused size
+        nq, cfg, feat, masks = self.cfg(rng)
+        maxq = 256
+        steps = [st("set_protocol_features", [W.PF_ALL]), st("set_features", [feat])]
+        for _ in range(3 + rng.below(6)):
+            q = rng.below(nq)
+            n = rng.choice([1, 2, 4, 8, 16, 32, 64, 128, 256]) if rng.chance(7, 8) else rng.choice([0, 3, 100, 257, 512, 65535])
+            steps.append(st("get_queue_num"))
+            steps.append(st("set_vring_num", [q, n]))
+            steps.append(st("queue_state", [q]))
+            if n == 0 or n > maxq or n & (n - 1):
+                steps.append(st("reconnect"))
+                steps.append(st("set_features", [feat]))
+                steps.append(st("set_protocol_features", [W.PF_ALL]))
+        for q in range(nq):
+            steps.append(st("queue_state", [q]))
+        return [VL(cfg), VL(steps + [st("teardown")])]
+
     def routing_case(self, rng, nq, masks, kind):
         feat = PFB
         cfg = [VN(nq), VN(256), VN(feat), VN(W.PF_ALL), VL([VN(m) for m in masks]), VN(kind)]
@@ -487,6 +510,7 @@ class Dmn(Family):
         out += [(self.mem_history(rng, 4 + rng.below(16)), "mem-history") for _ in range(n)]
         out += [(self.adv_history(rng), "adversarial") for _ in range(n)]
         out += [(self.beq_history(rng), "backend-req-channel") for _ in range(n // 8)]
+        out += [(self.resize_history(rng), "ring-resize") for _ in range(n // 8)]
         # routing: every mask set of the table x both vring kinds (complete), plus random mask sets
         for nq, sets in MASKSETS.items():
             for masks in sets:
